@@ -2,15 +2,16 @@
 
 _H = "c13_terminal"
 # handle_abort=0: a UBSan abort is keyed by its own "runtime error" line instead of ASan's generic ABRT report
+# hard_rss_limit_mb: a server-side handler that loops while writing to a socket would otherwise grow without bound until the watchdog fires
 _ENV = {"ASAN_OPTIONS": "abort_on_error=1:detect_leaks=0:detect_stack_use_after_return=0:allocator_may_return_null=1:"
-                        "handle_abort=0:print_summary=1:symbolize=1"}
+                        "handle_abort=0:print_summary=1:symbolize=1:hard_rss_limit_mb=3000"}
 
 
 def _leg(name, quick, thorough, **kw):
     # --watchdog: a `tree` over a cyclic mount (or any other command) that never returns is a hang datum; the runner
     # re-runs the single case alone (case_timeout) before it reports hang/<mode>
     d = dict(name=name, harness=_H, flavour="asan", mode=name, quick=quick, thorough=thorough,
-             args=["--watchdog", "60"], case_timeout=120, env=_ENV)
+             args=["--watchdog", "30"], case_timeout=60, env=_ENV)
     d.update(kw)
     return d
 
